@@ -245,4 +245,28 @@ CHECKS = {
         "assumptions": ["Close is called after in-flight queries finished (dns.Server.Shutdown waits for its handlers); reload loop, periodic reload and stats reporter keep running, as in the shipped binary"],
         "required_probes": {"quick": ["shutdown_reached", "periodic_reload_running", "stats_reporter_running"], "thorough": ["shutdown_reached", "periodic_reload_running", "stats_reporter_running"]},
     },
+    "C20": {
+        "test": "TestC20",
+        "level": "exploration",
+        "budget": {"quick": 45, "thorough": 900},
+        "rule": ("each evaluation starts the real fbserver.Server (handler chain as shipped: serveMux, maxAnswer, ANY refusal on/off, whoami on/off, "
+                 "FBDNSDB) with 1-2 listener IPs of different max-answer settings on a simulated network, and lets 1-5 client tasks send up to 6 "
+                 "queries each over UDP (no EDNS / 512 / 1232 / 4096) and TCP (several queries per connection), including ANY, whoami in lower and "
+                 "mixed case, a message without a question and an answer larger than small UDP buffers; the network drops, duplicates, delays and "
+                 "reorders datagrams and cuts TCP writes into 1..100-byte segments with delays, all from the scenario's seed. Every delivered response "
+                 "is compared (after the same wire round trip) with what the bare FBDNSDB.ServeDNS gives for that message, client address, protocol "
+                 "and listener max-answer; size/TC rules, ANY refusal, failure for the question-less message, consistency of duplicates; after the "
+                 "last fault every outstanding query sent again must be answered within 5 simulated seconds. Non-trivial = at least one response "
+                 "compared; distinct = schedule hash."),
+        "components": {
+            "real": ["fbserver.NewServer/Start/Shutdown, serveMux, maxAnswerHandler, anyHandler, whoami.Handler", "miekg/dns.Server UDP and TCP read loops, framing, MsgAcceptFunc",
+                     "dnsserver.FBDNSDB + cdb driver (also as the bare reference handler)"],
+            "stub": ["metrics exporter", "logger, stats sink"],
+            "simulated": ["network: UDP sockets and TCP listener/connections (simnet), loss, duplication, delay, reordering, segmentation", "clock, read and idle deadlines", "goroutine scheduling at yield points (seeded)"],
+            "not_run": ["TLS listener, DNSSEC handler, dotTLSA handler, prometheus exporter"],
+        },
+        "assumptions": ["weighted answers are compared by membership", "a slow segmented TCP sender may run into the server's read timeout: liveness is asserted for an undisturbed network only"],
+        "required_probes": {"quick": ["responses_compared", "udp_truncated", "big_answer_over_tcp", "any_refused", "whoami_answered", "no_question_message"],
+                            "thorough": ["responses_compared", "udp_truncated", "big_answer_over_tcp", "any_refused", "whoami_answered", "no_question_message", "query_retried"]},
+    },
 }
